@@ -576,6 +576,34 @@ func singleStore(a *ssa.Alloc) *ssa.Store {
 			only = st
 		}
 	}
+	// a scalar whose address is handed to a function that assigns through it (an out-parameter or a running
+	// value kept across calls): its one visible store does not describe it
+	if only != nil {
+		if _, basic := a.Type().Underlying().(*types.Pointer).Elem().Underlying().(*types.Basic); basic {
+			for _, r := range *a.Referrers() {
+				call, ok := r.(ssa.CallInstruction)
+				if !ok {
+					continue
+				}
+				for ai, arg := range call.Common().Args {
+					if arg != ssa.Value(a) {
+						continue
+					}
+					h := call.Common().StaticCallee()
+					if h == nil || h.Blocks == nil || ai >= len(h.Params) {
+						continue
+					}
+					if refs := h.Params[ai].Referrers(); refs != nil {
+						for _, pr := range *refs {
+							if st, ok := pr.(*ssa.Store); ok && st.Addr == ssa.Value(h.Params[ai]) {
+								return nil // the callee assigns through the pointer
+							}
+						}
+					}
+				}
+			}
+		}
+	}
 	return only
 }
 
@@ -1316,6 +1344,25 @@ func (ge *guardEnv) passEdges(f *ssa.Function, g Guard, depth int) map[Edge]bool
 				continue
 			}
 		}
+		// a boolean flag among several results of an in-module helper (`found, giveUp, err := scan()`): the
+		// edge on which the flag has a value establishes g if every way the helper can answer that value does
+		if depth > 0 && (ea.A.Kind == "true" || ea.A.Kind == "false") {
+			if ex, ok := stripConv(ea.A.V).(*ssa.Extract); ok {
+				if c, ok := ex.Tuple.(*ssa.Call); ok {
+					if h := staticCallee(c); h != nil && h.Blocks != nil && strings.HasPrefix(pkgPathOf(h), modPath) {
+						res := h.Signature.Results()
+						if ex.Index < res.Len()-1 || (ex.Index == res.Len()-1 && ea.A.Kind == "false") {
+							if bt, ok := res.At(ex.Index).Type().Underlying().(*types.Basic); ok && bt.Kind() == types.Bool {
+								if ge.predicateEnsuresIdx(c, h, g, ea.A.Kind == "true", depth-1, ex.Index) {
+									edges[ea.E] = true
+									continue
+								}
+							}
+						}
+					}
+				}
+			}
+		}
 		// !pred(x) where pred is an in-module predicate: the false edge establishes g if every way pred
 		// can return false does
 		if depth > 0 && ea.A.Kind == "false" {
@@ -1435,6 +1482,12 @@ func isPredicate(h *ssa.Function) bool {
 // shape of the returned value: constants need g on all paths to them, `a && b` / `a || b` phis are followed
 // per edge, a returned comparison is itself the atom.
 func (ge *guardEnv) predicateEnsures(call ssa.CallInstruction, h *ssa.Function, g Guard, want bool, depth int) bool {
+	return ge.predicateEnsuresIdx(call, h, g, want, depth, 0)
+}
+
+// predicateEnsuresIdx: g holds on every way h can answer `want` in its boolean result number idx (a flag
+// among several results: `found, giveUp, err := scan(...)`).
+func (ge *guardEnv) predicateEnsuresIdx(call ssa.CallInstruction, h *ssa.Function, g Guard, want bool, depth int, idx int) bool {
 	args := call.Common().Args
 	sub := map[ssa.Value]string{}
 	if len(args) == len(h.Params) {
@@ -1494,12 +1547,35 @@ func (ge *guardEnv) predicateEnsures(call ssa.CallInstruction, h *ssa.Function, 
 			continue
 		}
 		if ret, ok := b.Instrs[len(b.Instrs)-1].(*ssa.Return); ok {
-			if !check(ret.Results[0], ret, nil, nil, want, 0) {
+			if idx >= len(ret.Results) {
+				return false
+			}
+			if !check(resultValueAt(ret, idx), ret, nil, nil, want, 0) {
 				return false
 			}
 		}
 	}
 	return true
+}
+
+// resultValueAt: the value a return hands back in result idx; a named result spilled to a slot (defer,
+// address taken) is followed to the value stored last in the returning block, if there is one.
+func resultValueAt(ret *ssa.Return, idx int) ssa.Value {
+	v := ret.Results[idx]
+	if u, ok := v.(*ssa.UnOp); ok && u.Op == token.MUL {
+		if al, ok := u.X.(*ssa.Alloc); ok {
+			var last ssa.Value
+			for _, in := range ret.Block().Instrs {
+				if st, ok := in.(*ssa.Store); ok && st.Addr == ssa.Value(al) {
+					last = st.Val
+				}
+			}
+			if last != nil {
+				return last
+			}
+		}
+	}
+	return v
 }
 
 // guardedEdge: every path from entry that takes the edge p→s crosses a pass edge of g (the edge itself counts).
